@@ -13,6 +13,7 @@ distinct observations the real `clientProcessRunner` produced on it.
 import ConfModel.Driver.Common
 import ConfModel.Driver.OSCmd
 import ConfModel.Spec.ClientRunner
+import ConfModel.Model.Delimited
 import Std.Data.HashSet
 namespace ConfModel.Driver.C10
 open Lean ConfModel.Driver ConfModel.ClientRunner
@@ -297,9 +298,70 @@ def judgeWedge (inp impl : Json) : Verdict :=
     why := if why != "" then why else if agree then "" else
       s!"observation differs from the model: rets {rets} / {mRets}, callbacks {cbs} / {mCbs}, late {late} / {mLate}, wait returned {waitRet} / {mWait}, client ended by itself {bool (field impl "clientEnded")}" }
 
+/-- op "rawout": arbitrary bytes where the reader expects the next length prefix of the client's
+output (run in a child process: the death of the runner is the observation `crashed`).  `holds`: the
+runner lives, every request has exactly one callback (own response or error), later sends are
+refused, not running, waitForResponses returned.  `agree`: the callbacks are the model's on the
+scenario's schedule, and the reader's reason is what `Delimited.readAt .client` (the model C09's
+theorems are about) makes of those bytes — for a prefix above the limit the very size, which is the
+unsigned big-endian value of the four bytes whatever their first bit. -/
+def judgeRawOut (inp impl : Json) : Verdict :=
+  if !(isNull (field impl "panic")) then
+    { agree := false, holds := false, why := "panic: " ++ str (field impl "panic") } else
+  if bool (field impl "crashed") then
+    { agree := false, holds := false, cls := "crashed",
+      why := s!"the whole runner died ({str (field impl "how")}: {str (field impl "detail")}) while reading the client's output {str (field inp "hex")} after {nat (field inp "pos")} good answer(s): no pending callback fired, waitForResponses never returned" } else
+  if !(bool (field impl "valid")) then { agree := true, holds := true, nontrivial := false, cls := "invalid-input" } else
+  let n := nat (field inp "n")
+  let pos := nat (field inp "pos")
+  let bytes := unhex (str (field inp "hex"))
+  let more := str (field inp "then") == "more"
+  let ids := List.range n
+  let rd := ConfModel.Delimited.readAt .client ⟨bytes, [], .eofSeparate⟩
+  -- what the error callbacks must carry (none: not determined by the model — the content of a body)
+  let mClass : Option String := match rd.res with
+    | .tooLarge sz => some s!"toolarge:{sz}"
+    | .unexpectedEOF => if more then none else some "eof"
+    | _ => none
+  let rejectedAtOnce := match rd.res with | .tooLarge _ => true | _ => false
+  if more && !rejectedAtOnce && (match rd.res with | .msg _ => false | _ => true) then bad "client goes on writing inside an unfinished message" else
+  let sends : List Event := ids.flatMap (fun i => [Event.sStart i, .sLock i, .sRegister i, .sWriteOk i])
+  let good : List Event := (List.range pos).flatMap (fun m => [Event.rRecv m, .rLookup, .rFire])
+  let evs := sends ++ [.uCloseSend] ++ good ++ [.rRecvBad, .rSetErr, .rTerminate, .rAbort, .pExit 1, .rCloseSend, .rDrain, .rDone, .pHook, .sStart n]
+  let names : Nat → ClientRunner.Name := fun i => if i < n then i else lateName
+  let s := run names init evs
+  let mRets := ids.map (fun i => retClass (s.spc i))
+  let mCbs : List (List Int) := ids.map (fun i => sortInts ((Spec.cbsOf s i).map fun o => match o with | some m => (m : Int) | none => -1))
+  let mLate := retClass (s.spc n)
+  let rets := strList (field impl "rets")
+  let cbs := (arr (field impl "cbs")).map intList
+  let hang := str (field impl "hang")
+  let errClass := str (field impl "errClass")
+  let late := str (field impl "late")
+  let lateCbs := nat (field impl "lateCbs")
+  let perReq := ids.all fun i => Spec.reqOK (names i) (classOfRet (rets.getD i "")) ((cbs.getD i []).map cbOfInt)
+  let cbRunning := cbs.any fun l => l.contains (-3)
+  let refused := Spec.refusedOK (classOfRet late) (List.replicate lateCbs none)
+  let why :=
+    if hang != "" then "deadlock: " ++ hang ++ " did not return within 10 s"
+    else if !perReq then "exactly-once/own-response violated: rets " ++ toString rets ++ " callbacks " ++ toString cbs
+    else if !refused then "send after shutdown not refused: " ++ late
+    else if cbRunning then "isRunning() still true inside the completion callback that reports the failure of the client's output stream"
+    else if bool (field impl "runAtDone") || bool (field impl "running") then "isRunning() still true after the output reader had failed and shut down"
+    else ""
+  let classOK := errClass == "" || (match mClass with | some c => errClass == c | none => errClass == "decode" || errClass == "unknown" || errClass == "dup" || errClass == "eof")
+  let agree := rets == mRets && cbs.map (fun l => sortInts (l.map fun v => if v == -3 then -1 else v)) == mCbs && late == mLate && classOK &&
+    str (field impl "wait") == "fail"
+  { agree := agree, holds := why == "", nontrivial := true,
+    cls := "rawout:" ++ (match rd.res with | .tooLarge sz => (if sz ≥ 2147483648 then "toolarge-highbit" else "toolarge") | .unexpectedEOF => "short" | .msg _ => "body" | _ => "other"),
+    model := Json.mkObj [("rets", toJson mRets), ("late", mLate), ("reason", (mClass.getD "?"))],
+    why := if why != "" then why else if agree then "" else
+      s!"observation differs from the model: rets {rets} / {mRets}, callbacks {cbs} / {mCbs}, late {late} / {mLate}, reader's reason {errClass} / {mClass}, wait {str (field impl "wait")} / fail" }
+
 def handle : Handler := fun op inp impl =>
   match op with
   | "oscmd" => ConfModel.Driver.OSCmd.judgeClient inp impl
+  | "rawout" => judgeRawOut inp impl
   | "wedge" => judgeWedge inp impl
   | "run" =>
     let namesL := natList (field inp "names")
